@@ -33,6 +33,17 @@ THEOREMS = [
     'Nb.C13.in_memory_history',
     'Nb.C13.proxy_ignores_header_edits',
     'Nb.C13.proxy_ignores_header_values',
+    'Nb.C13.code_constructors_flat',
+    'Nb.C13.ref_model_refines_flat',
+    'Nb.C13.code_images_follow_doc_model',
+    'Nb.C13.proxy_owns_its_parameters',
+    'Nb.C13.array_image_ignores_header_objects',
+    'Nb.C13.frozen_ignores_header_cells',
+    'Nb.C13.aliasing_proxy_counterexample',
+    'Nb.C13.image_header_is_a_copy',
+    'Nb.C13.shared_image_header_counterexample',
+    'Nb.C13.readonly_read_iff',
+    'Nb.C13.readonly_edit_is_noop',
 ]
 ASSUMPTIONS = [
     'hand-written Lean model of DataobjImage.get_fdata/get_data/in_memory/uncache and of what '
@@ -41,7 +52,10 @@ ASSUMPTIONS = [
     'NumPy contract: np.asanyarray(a, dtype=d) is `a` itself iff a is an ndarray of dtype d (or d omitted); '
     'element casts between int16/float32/float64 are exact on the small integers used; `arr += 1` is in place',
     'the file behind a proxy is not written by any modelled op (checked at the end of every case: `F1`); '
-    'mmap reads use copy-on-write mode',
+    'np.memmap succeeds exactly for an uncompressed file given by path (IOp.mapMode), modes c / r as documented',
+    'object-level header model (RState): which header OBJECTS exist and who holds them is written from '
+    'from_file_map / ArrayProxy.__init__ / FileBasedImage.__init__ by hand (Copies.code) and tied by the '
+    'differential run (header pair after every header edit, data after it)',
     'array identities: every returned array is kept alive by the harness, so CPython id() is not recycled',
     'images are Nifti1Image of shape (n,1,1); dataobj[slice] is modelled for proxy images only',
 ]
@@ -50,7 +64,13 @@ RULE = ('streams: exhaustive op sequences of exact depth 4 (quick) / 5 (thorough
         'get_data(fill), header scale edit on img.header / constructor header} x {array image int16/f4/f8, proxy '
         'image from file (mmap), from .nii.gz, from BytesIO file_map, NIfTI pair file_map, hand-built ArrayProxy; scaled and unscaled; '
         'keep_file_open in {default,True,False} x mmap in {True,c,r,False} for the file-backed loaders (stream `io`: '
-        'exhaustive depth 3/4 for every pair; mmap=r on an unscaled plain file is oracle-only)}; random '
+        'exhaustive depth 3/4 for every pair; the read-only rule of mmap=r is in the Lean model)}; stream `ctor`: '
+        'ArrayProxy(path|BytesIO, hdr | 3-/5-tuple spec) + Nifti1Image(proxy, None, hdr) with the caller keeping and '
+        'editing hdr (scaling, dtype) between reads, exhaustive depth 3/4; stream `classes`: big-endian NIfTI-1, '
+        'NIfTI-2, AnalyzeImage, Spm2AnalyzeImage, MGHImage from files, exhaustive depth 3/4 + mmap r/False; stream '
+        '`spell`: get_fdata()/get_data() with defaults omitted, positional arguments, dtype strings; stream '
+        '`histories`: get_fdata(B)->edit->get_fdata(A)->get_fdata(B) on int/f4/f8 array images, and '
+        'read->edit->(uncache|fill)->re-read->edit->uncache->re-read on unscaled float files for kfo x mmap; random '
         'sequences up to depth 30 over the full alphabet incl. in_memory, get_data(unchanged), edit of any earlier '
         'array, header shape/dtype edits, bad caching / int dtype / zero-step slice. A case is non-trivial when it '
         'contains a data read; distinct by (image configuration, flavour, op sequence).')
@@ -75,33 +95,52 @@ def _unscaled(scale):
     return scale is None or tuple(scale) == (1, 0)
 
 
+# flavours whose proxy reads a real, uncompressed file given by PATH (so numpy can memory-map it)
+PATH_FLAVOURS = ('load', 'ctorf', 'be', 'n2', 'ana', 'spm', 'mgh')
+# flavours whose file stores the data in the non-native byte order
+SWAPPED_FLAVOURS = ('be', 'mgh')
+# flavours built as ArrayProxy(file, spec) + Nifti1Image(proxy, None, hdr) with the caller keeping `hdr`
+CTOR_FLAVOURS = ('ctor', 'ctorf', 'tuple')
+
+
 def _ro_mmap(d):
-    """reads of an unscaled, uncompressed file through mmap='r' hand out read-only arrays; the Lean model has
-    no map mode, so these cases are oracle-only (the documented model in Python knows the rule)"""
-    return (d['kind'] == 'P' and d.get('flavour') == 'load' and d.get('mmap', True) == 'r'
+    """reads of an unscaled, uncompressed file through mmap='r' hand out read-only arrays (Lean: `Par.readRO`,
+    `Par.sliceRO`; the documented model in Python states the rule independently)"""
+    return (d['kind'] == 'P' and d.get('flavour') in PATH_FLAVOURS and d.get('mmap', True) == 'r'
             and _unscaled(d.get('scale')))
 
 
-def mk_case(kind, dt, scale, raw, ops, flavour, stream='main', kfo=None, mmap=True):
-    """kfo / mmap: the `keep_file_open` / `mmap` arguments of nib.load / from_file_map (proxy images; the model
-    does not depend on them: uncached reads are fresh and reflect the file whatever the I/O strategy)."""
+def mk_case(kind, dt, scale, raw, ops, flavour, stream='main', kfo=None, mmap=True, spell=False):
+    """kfo / mmap: the `keep_file_open` / `mmap` arguments of nib.load / from_file_map / ArrayProxy (proxy images;
+    the model does not depend on them: uncached reads are fresh and reflect the file whatever the I/O strategy).
+    spell: call get_fdata / get_data with omitted (default) / positional arguments and other dtype spellings.
+    The Lean driver runs the object-level model from the constructor matching the flavour: `A` array image,
+    `P` from_file_map (nib.load, file maps), `C` ArrayProxy(file, hdr) + Nifti1Image(proxy, None, hdr)."""
     sl, it = ('_', '_') if scale is None else (str(scale[0]), str(scale[1]))
-    line = 'C13 run %s %s %s %s %s %s' % (kind, dt, sl, it, ','.join(map(str, raw)) if raw else '-',
+    mkind = 'C' if (kind == 'P' and flavour in CTOR_FLAVOURS) else kind
+    if kind == 'P':
+        # the proxy's I/O parameters the model knows: mmap argument, kind of file, storage byte order
+        mkind += ':%s%s%s' % ({True: 'T', False: 'F', 'c': 'c', 'r': 'r'}[mmap],
+                              'p' if flavour in PATH_FLAVOURS else 'z' if flavour == 'gz' else 'h',
+                              's' if flavour in SWAPPED_FLAVOURS else 'n')
+    line = 'C13 run %s %s %s %s %s %s' % (mkind, dt, sl, it, ','.join(map(str, raw)) if raw else '-',
                                           ';'.join(ops) if ops else '-')
     data = {'kind': kind, 'dt': dt, 'scale': list(scale) if scale is not None else None, 'raw': list(raw),
             'ops': list(ops), 'flavour': flavour, 'stream': stream}
     if kind == 'P' and (kfo is not None or mmap is not True):
         data['kfo'], data['mmap'] = kfo, mmap
-    if _ro_mmap(data):
-        line = None
+    if spell:
+        data['spell'] = True
     nontrivial = any(o[0] in 'gdas' for o in ops)
-    key = (kind, dt, sl, it, tuple(raw), flavour, data.get('kfo'), data.get('mmap', True), tuple(ops)) if nontrivial else None
+    key = (kind, dt, sl, it, tuple(raw), flavour, data.get('kfo'), data.get('mmap', True), bool(spell),
+           tuple(ops)) if nontrivial else None
     return Case(line, data, key, stream)
 
 
 def case_from_data(d):
     return mk_case(d['kind'], d['dt'], tuple(d['scale']) if d.get('scale') is not None else None, d['raw'], d['ops'],
-                   d.get('flavour', 'fmap'), d.get('stream', 'main'), d.get('kfo'), d.get('mmap', True))
+                   d.get('flavour', 'fmap'), d.get('stream', 'main'), d.get('kfo'), d.get('mmap', True),
+                   d.get('spell', False))
 
 
 # ------------------------------------------------------------------ implementation side
@@ -131,18 +170,33 @@ def _hdr_str(h):
 _BYTES = {}
 
 
-def _file_bytes(dt, scale, raw):
-    """(header object, bytes of a single-file NIfTI-1 with these raw values) — written by hand so that no
-    nibabel writing logic is involved."""
+def _file_bytes(dt, scale, raw, fmt='n1'):
+    """bytes of a single-file NIfTI-1 with these raw values — written by hand so that no nibabel writing logic is
+    involved.  fmt: 'n1' NIfTI-1, 'be' big-endian NIfTI-1, 'n2' NIfTI-2, 'mgh' MGH (always big-endian, no
+    scaling), 'ana' Analyze 7.5 (returns header-file bytes + image-file bytes; no scaling)."""
     import nibabel as nib
-    k = (dt, scale, tuple(raw))
+    k = (dt, scale, tuple(raw), fmt)
     if k not in _BYTES:
-        hdr = nib.Nifti1Header()
+        if fmt in ('ana', 'mgh') and not _unscaled(scale):
+            raise ValueError('format %s stores no scaling' % fmt)
+        hdr = {'n1': nib.Nifti1Header, 'be': (lambda: nib.Nifti1Header(endianness='>')), 'n2': nib.Nifti2Header,
+               'mgh': nib.freesurfer.mghformat.MGHHeader, 'ana': nib.AnalyzeHeader}[fmt]()
         hdr.set_data_dtype(DTS[dt])
         hdr.set_data_shape((len(raw), 1, 1))
-        hdr.set_slope_inter(*(scale if scale is not None else (None, None)))
-        hdr.set_data_offset(352)
-        _BYTES[k] = hdr.binaryblock + b'\0' * 4 + np.array(raw, dtype=DTS[dt]).reshape(len(raw), 1, 1).tobytes(order='F')
+        if fmt in ('n1', 'be', 'n2'):
+            hdr.set_slope_inter(*(scale if scale is not None else (None, None)))
+            hdr.set_data_offset(len(hdr.binaryblock) + 4)
+        # the header reports the on-disk dtype incl. its byte order
+        body = np.array(raw, dtype=hdr.get_data_dtype()).reshape(len(raw), 1, 1).tobytes(order='F')
+        if fmt == 'ana':
+            _BYTES[k] = (hdr.binaryblock, body)
+        elif fmt == 'mgh':
+            # the structured array holds header fields and footer; on disk the header is zero-padded to the
+            # data offset (284) and the footer follows the data
+            nh = hdr._hdrdtype.itemsize
+            _BYTES[k] = (hdr.binaryblock[:nh] + b'\0' * (hdr.get_data_offset() - nh) + body + hdr.binaryblock[nh:])
+        else:
+            _BYTES[k] = hdr.binaryblock + b'\0' * 4 + body
     return _BYTES[k]
 
 
@@ -163,12 +217,64 @@ def build(d):
         hdr.set_slope_inter(*(scale if scale is not None else (None, None)))
         img = nib.Nifti1Image(arr, None, hdr)
         return img, hdr, arr, (lambda: True), (lambda: None)
-    b = _file_bytes(dt, scale, raw)
-    b0 = b
     fl = d.get('flavour', 'fmap')
     kw = {}
     if 'kfo' in d or 'mmap' in d:
         kw = {'mmap': d.get('mmap', True), 'keep_file_open': d.get('kfo')}
+    if fl in ('be', 'n2', 'mgh', 'ana', 'spm'):
+        # other image classes / byte orders, always from a real file given by path
+        stem = os.path.join(_tmpdir(), 'c%d_%d' % (os.getpid(), next(_SEQ)))
+        if fl in ('ana', 'spm'):
+            hb, ib = _file_bytes(dt, scale, raw, 'ana')
+            files = {stem + '.hdr': hb, stem + '.img': ib}
+            # nib.load picks Spm2AnalyzeImage for a plain Analyze header; AnalyzeImage is asked for explicitly
+            img = (nib.AnalyzeImage.from_filename(stem + '.img', **kw) if fl == 'ana'
+                   else nib.load(stem + '.img', **kw)) if _write_all(files) else None
+            want = nib.AnalyzeImage if fl == 'ana' else nib.spm2analyze.Spm2AnalyzeImage
+        else:
+            p = stem + ('.mgh' if fl == 'mgh' else '.nii')
+            files = {p: _file_bytes(dt, scale, raw, fl)}
+            img = nib.load(p, **kw) if _write_all(files) else None
+            want = {'be': nib.Nifti1Image, 'n2': nib.Nifti2Image, 'mgh': nib.MGHImage}[fl]
+        if type(img) is not want:
+            raise RuntimeError('flavour %s loaded as %s' % (fl, type(img).__name__))
+        orig = getattr(img, '_load_cache', {}).get('header')
+        if orig is None:
+            orig = img.header.copy()
+
+        def same_files():
+            for q, c in files.items():
+                with open(q, 'rb') as f:
+                    if f.read() != c:
+                        return False
+            return True
+
+        def rm_files():
+            for q in files:
+                os.unlink(q)
+        return img, orig, None, same_files, rm_files
+    b = _file_bytes(dt, scale, raw)
+    b0 = b
+    if fl in ('ctorf', 'tuple'):
+        # the caller builds the proxy and the image itself and keeps the header object
+        orig = nib.Nifti1Header.from_fileobj(io.BytesIO(b))
+        if fl == 'ctorf':
+            p = os.path.join(_tmpdir(), 'c%d_%d.nii' % (os.getpid(), next(_SEQ)))
+            with open(p, 'wb') as f:
+                f.write(b)
+            img = nib.Nifti1Image(ArrayProxy(p, orig, **kw), None, orig)
+
+            def same_p():
+                with open(p, 'rb') as f:
+                    return f.read() == b
+            return img, orig, None, same_p, (lambda: os.unlink(p))
+        bio = io.BytesIO(b)
+        # tuple spec of length 3 (slope/inter defaulted by ArrayProxy) or 5
+        spec = ((len(raw), 1, 1), np.dtype(DTS[dt]), 352)
+        if scale is not None:
+            spec = spec + (float(scale[0]), float(scale[1]))
+        img = nib.Nifti1Image(ArrayProxy(bio, spec, **kw), None, orig)
+        return img, orig, None, (lambda: bio.getvalue() == b), (lambda: None)
     if fl in ('load', 'gz'):
         p = os.path.join(_tmpdir(), 'c%d_%d.nii%s' % (os.getpid(), next(_SEQ), '.gz' if fl == 'gz' else ''))
         if fl == 'gz':
@@ -215,6 +321,13 @@ def build(d):
     return img, orig, None, (lambda: bio.getvalue() == b), (lambda: None)
 
 
+def _write_all(files):
+    for q, c in files.items():
+        with open(q, 'wb') as f:
+            f.write(c)
+    return True
+
+
 def _slice_of(tok):
     return slice(*[None if v == '_' else int(v) for v in tok.split(',')])
 
@@ -233,6 +346,17 @@ def _apply_hedit(h, e):
 
 CACHING = {'f': 'fill', 'u': 'unchanged', 'x': 'bogus'}
 GD = {'4': np.float32, '8': np.float64, 'i': np.int16}
+# the same calls written the way users write them: defaults omitted (caching='fill', dtype=np.float64 are the
+# documented defaults), positional arguments, dtype given as string / np.dtype
+SPELL = {
+    'gf8': [lambda im: im.get_fdata(), lambda im: im.get_fdata('fill'), lambda im: im.get_fdata(dtype='float64'),
+            lambda im: im.get_fdata('fill', float)],
+    'gu8': [lambda im: im.get_fdata('unchanged'), lambda im: im.get_fdata(caching='unchanged'),
+            lambda im: im.get_fdata('unchanged', 'f8')],
+    'gf4': [lambda im: im.get_fdata(dtype=np.float32), lambda im: im.get_fdata(dtype='float32'),
+            lambda im: im.get_fdata('fill', np.dtype('<f4')), lambda im: im.get_fdata(dtype='f4')],
+    'gu4': [lambda im: im.get_fdata('unchanged', np.float32), lambda im: im.get_fdata('unchanged', dtype='<f4')],
+}
 
 
 def run_real(d):
@@ -247,7 +371,11 @@ def run_real(d):
             try:
                 with warnings.catch_warnings():
                     warnings.simplefilter('ignore')
-                    if op[0] == 'g':
+                    if op[0] == 'g' and d.get('spell') and op in SPELL:
+                        r = SPELL[op][len(outs) % len(SPELL[op])](img)
+                    elif op == 'df' and d.get('spell'):
+                        r = img.get_data()
+                    elif op[0] == 'g':
                         r = img.get_fdata(caching=CACHING[op[1]], dtype=GD[op[2]])
                     elif op[0] == 'd':
                         r = img.get_data(caching=CACHING[op[1]])
@@ -286,7 +414,8 @@ def run_real(d):
                         ids[id(r)] = len(alive)
                         alive.append(r)
                     last = ids[id(r)]
-                    res = '%d:%s:%s:%s' % (last, DTNAME.get(r.dtype, str(r.dtype)),
+                    # byte order is not part of the property's dtype (int16 / float32 / float64)
+                    res = '%d:%s:%s:%s' % (last, DTNAME.get(r.dtype.newbyteorder('='), str(r.dtype)),
                                            ','.join(_ex(v) for v in r.ravel(order='F')),
                                            'w' if r.flags.writeable else 'r')
             outs.append(res + ':' + ('T' if img.in_memory else 'F'))
@@ -326,7 +455,8 @@ class DocModel:
             # mmap='r' on an unscaled uncompressed file: the map itself is handed out, read-only, unless a
             # dtype conversion made a copy
             self.ro_map = _ro_mmap(d)
-            self.storage_dt = d['dt']
+            # a conversion to the native byte order is a copy too
+            self.storage_dt = d['dt'] if d.get('flavour') not in SWAPPED_FLAVOURS else 'swapped-' + d['dt']
             self.file_dt = d['dt'] if self.unscaled else 'f8'
         self.cache = None          # get_fdata cache
         self.legacy = None         # get_data cache
@@ -481,7 +611,7 @@ def shrink_candidates(case):
     kfo, mm = d.get('kfo'), d.get('mmap', True)
     for i in range(len(ops)):
         yield mk_case(d['kind'], d['dt'], scale, d['raw'], ops[:i] + ops[i + 1:], d.get('flavour'), d.get('stream'),
-                      kfo, mm)
+                      kfo, mm, d.get('spell', False))
     if len(d['raw']) > 2:
         yield mk_case(d['kind'], d['dt'], scale, d['raw'][:2], ops, d.get('flavour'), d.get('stream'), kfo, mm)
     if kfo is not None or mm is not True:
@@ -529,6 +659,77 @@ IO_CONFIGS = [
 ]
 IO_ALPHA = ['gf4', 'gf8', 'gu4', 'gu8', 'a', 'u', 'el', 'e0', 's_,_,_', 's1,_,_', 'df']
 IO_ALPHA4 = ['gf4', 'gf8', 'gu8', 'a', 'u', 'el', 's_,_,_', 'df']
+
+# proxies and images the CALLER builds from a header object it keeps (object-level model, constructor `C`)
+CTOR_CONFIGS = [
+    ('P', 'i2', (2, 1), (3, 4, 5), 'ctorf', None, True),
+    ('P', 'i2', (2, 1), (3, 4), 'ctorf', True, 'c'),
+    ('P', 'f8', (1, 0), (3, 4), 'ctorf', False, False),
+    ('P', 'f4', None, (3, 4), 'ctorf', True, True),
+    ('P', 'i2', (2, 1), (3, 4), 'tuple', None, True),
+    ('P', 'f4', None, (3, 4, 5), 'tuple', None, True),
+]
+CTOR_ALPHA = ['gf4', 'gf8', 'gu8', 'a', 'u', 'el', 's1,_,_', 'df', 'ho:s3,5', 'hi:s3,5', 'ho:tf8']
+# other image classes / byte orders (Analyze, SPM2 and MGH store no scaling; MGH and `be` are big-endian files)
+CLASS_CONFIGS = [
+    ('P', 'i2', (2, 1), (3, 4, 5), 'be'),
+    ('P', 'f4', None, (3, 4, 5), 'be'),
+    ('P', 'f8', (3, -2), (3, 4), 'n2'),
+    ('P', 'f4', (1, 0), (3, 4, 5), 'n2'),
+    ('P', 'i2', None, (3, 4, 5), 'ana'),
+    ('P', 'f8', None, (3, 4), 'spm'),
+    ('P', 'f4', None, (3, 4, 5), 'mgh'),
+    ('P', 'i2', None, (3, 4), 'mgh'),
+]
+CLASS_ALPHA = ['gf4', 'gf8', 'gu8', 'a', 'u', 'el', 's_,_,_', 's1,_,_', 'df', 'ho:n2']
+SPELL_CONFIGS = [
+    ('A', 'f8', None, (3, 4, 5), 'array'),
+    ('P', 'i2', (2, 1), (3, 4, 5), 'fmap'),
+    ('P', 'f4', (1, 0), (3, 4, 5), 'load'),
+]
+SPELL_ALPHA = ['gf8', 'gu8', 'gf4', 'gu4', 'df', 'u', 'el', 'a']
+# unscaled, uncompressed, memory-mappable files whose storage dtype is a float dtype get_fdata can ask for
+MAPPED_CONFIGS = [
+    ('P', 'f4', None, (3, 4, 5), 'load'),
+    ('P', 'f8', (1, 0), (3, 4), 'load'),
+    ('P', 'f8', None, (3, 4, 5), 'ctorf'),
+    ('P', 'f4', (1, 0), (3, 4), 'n2'),
+    ('P', 'f4', None, (3, 4), 'be'),
+]
+
+
+def history_cases(tier):
+    """targeted multi-step histories (stream `histories`):
+    * array images: get_fdata(B) -> edit -> get_fdata(A) -> get_fdata(B) for every ordered pair of float dtypes and
+      every caching mode, with the edit made through the last result or through the image's own array, with and
+      without an uncache / a second edit in between, for int and BOTH float array dtypes (A may be the array's dtype);
+    * unscaled memory-mappable files: read -> edit -> (uncache | other-dtype fill | nothing) -> re-read -> edit ->
+      uncache -> re-read, the reads being asarray(dataobj), a whole-array slice or get_fdata of the storage dtype /
+      the other dtype, for keep_file_open x mmap."""
+    out = []
+    acfg = [c for c in CONFIGS + MORE_CONFIGS if c[0] == 'A']
+    for (kind, dt, scale, raw, fl) in acfg:
+        for a, b in (('4', '8'), ('8', '4')):
+            for c1, c2, c3 in itertools.product('fu', repeat=3):
+                for ed in ('el', 'e0'):
+                    for mid in ([], ['u'], ['a', 'el'], ['df']):
+                        for tail in ([], ['u', 'g' + c3 + b], ['e0', 'gu' + a]):
+                            ops = ['g' + c1 + b, ed] + mid + ['g' + c2 + a, 'g' + c3 + b] + tail
+                            out.append(mk_case(kind, dt, scale, raw, ops, fl, 'histories'))
+    reads = ['a', 'gf4', 'gf8', 'gu4', 's_,_,_']
+    pairs = [(None, True), (True, True), (True, 'c'), (False, 'c'), (True, False), (None, 'r'), (True, 'r')]
+    if tier == 'quick':
+        pairs = pairs[:3] + pairs[4:6]
+    for (kind, dt, scale, raw, fl) in MAPPED_CONFIGS:
+        for kfo, mm in pairs:
+            for r1 in reads:
+                for mid in ([], ['u'], ['gf8'], ['gf4']):
+                    for r2 in reads:
+                        for r3 in ('gf4', 'gf8', 'a'):
+                            ops = [r1, 'el'] + mid + [r2, 'el', 'u', r3]
+                            out.append(mk_case(kind, dt, scale, raw, ops, fl, 'histories', kfo, mm))
+    return out
+
 
 CORE = ['gf4', 'gf8', 'gu4', 'gu8', 'a', 'u', 'el']
 EXH_A = CORE + ['df', 'e0']
@@ -610,6 +811,25 @@ def cases(rng, tier):
                     out.append(mk_case(kind, dt, scale, raw, ops, fl, 'io', kfo, mm))
     for ops in itertools.product(EXH_P, repeat=depth):
         out.append(mk_case('P', 'i2', None, (3, 4, 5), ops, 'load', 'exhaustive-kfo', True, True))
+    # caller-built proxies and images over a header object the caller keeps and edits (scaling, dtype) between
+    # reads; tuple specs of length 3 and 5
+    cdepth = {'quick': 3, 'thorough': 4, 'search': 3}[tier]
+    for (kind, dt, scale, raw, fl, kfo, mm) in CTOR_CONFIGS:
+        for ops in itertools.product(CTOR_ALPHA, repeat=cdepth):
+            out.append(mk_case(kind, dt, scale, raw, ops, fl, 'ctor', kfo, mm))
+    # other image classes and byte orders
+    for (kind, dt, scale, raw, fl) in CLASS_CONFIGS:
+        for ops in itertools.product(CLASS_ALPHA, repeat=cdepth):
+            out.append(mk_case(kind, dt, scale, raw, ops, fl, 'classes'))
+        for kfo, mm in ((True, 'r'), (True, False), (False, 'c')):
+            for pre in itertools.product(['gf4', 'gf8', 'a', 's_,_,_', 'df'], repeat=2):
+                out.append(mk_case(kind, dt, scale, raw, [pre[0], 'el', pre[1], 'el', 'u', 'gu4', 'gf8', 'a'], fl,
+                                   'classes', kfo, mm))
+    # the calls as users spell them (defaults omitted, positional, dtype strings)
+    for (kind, dt, scale, raw, fl) in SPELL_CONFIGS:
+        for ops in itertools.product(SPELL_ALPHA, repeat=cdepth):
+            out.append(mk_case(kind, dt, scale, raw, ops, fl, 'spell', spell=True))
+    out.extend(history_cases(tier))
     if tier == 'thorough':
         for (kind, dt, scale, raw, fl) in (CONFIGS[0], CONFIGS[2], CONFIGS[3], CONFIGS[4]):
             alpha = CORE if kind == 'A' else CORE[:6] + ['s1,_,_']
@@ -635,18 +855,26 @@ def cases(rng, tier):
         if rng.random() < 0.3:
             raw = tuple(rng.randrange(-9, 40) for _ in range(rng.choice([0, 1, 2, 3, 5])))
             if kind == 'P':
-                fl = rng.choice(['fmap', 'load', 'ctor', 'gz', 'pair'])
+                fl = rng.choice(['fmap', 'load', 'ctor', 'gz', 'pair', 'ctorf', 'tuple', 'be', 'n2', 'ana', 'spm', 'mgh'])
                 scale = rng.choice([None, (1, 0), (2, 1), (3, -2), (1, 5)])
+                if fl in ('ana', 'spm', 'mgh'):
+                    scale = None
+                    if not raw:               # an empty .img / a zero-length MGH volume is not a loadable image
+                        raw = (rng.randrange(-9, 40),)
+                    if fl == 'mgh' and dt == 'f8':
+                        dt = 'f4'             # MGH stores uint8 / int16 / int32 / float32 only
         n = rng.choice([1, 2, 3, 5, 8, 8, 12, 20, 30])
         ops, seen = [], (1 if kind == 'A' else 0)
         for _ in range(n):
             o = rand_op(rng, kind, seen)
+            if fl in ('ana', 'spm', 'mgh') and o[0] == 'h' and o[3] in 'st':
+                o = 'h%s:n%d' % (o[1], rng.choice([1, 2, 4]))   # these headers refuse scaling / some dtypes
             if o[0] in 'gdas':
                 seen += 1
             ops.append(o)
         kfo, mm = None, True
         if kind == 'P' and rng.random() < 0.6:
             kfo, mm = rng.choice(KFO), rng.choice(MMAP)
-        out.append(mk_case(kind, dt, scale, raw, ops, fl, 'random', kfo, mm))
+        out.append(mk_case(kind, dt, scale, raw, ops, fl, 'random', kfo, mm, spell=rng.random() < 0.2))
     _parallel_impl(out)
     return out
